@@ -34,7 +34,9 @@ func main() {
 	if !ok {
 		usage()
 	}
-	if err := f(os.Args[2:]); err != nil {
+	err := f(os.Args[2:])
+	flushCoverage()
+	if err != nil {
 		fmt.Fprintf(os.Stderr, "verifdrv %s: %v\n", os.Args[1], err)
 		os.Exit(3)
 	}
